@@ -3,6 +3,7 @@ CONSTANT NPEERS = 3
 CONSTANT NCIDS = 2
 CONSTANT MaxOps = 3
 CONSTANT MaxChanges = 4
+CONSTANT BackupsRotate = 1
 CONSTANT MaxDowns = 1
 INVARIANT TypeOK
 INVARIANT Agreement
@@ -13,3 +14,4 @@ PROPERTY NoOpHarmless
 PROPERTY PinsetKept
 PROPERTY UnackedFaultyNotCommitted
 INVARIANT StoppedCanRestart
+INVARIANT RemovedDataGone
